@@ -3,6 +3,7 @@
 
 from rzilcompiler.Transformer.Pures.Pure import Pure
 from rzilcompiler.Transformer.Pures.PureExec import PureExec
+from rzilcompiler.Transformer.Pures.Bool import Bool
 from rzilcompiler.Transformer.Pures.BooleanOp import BooleanOp
 from rzilcompiler.Transformer.Pures.CompareOp import CompareOp
 
@@ -12,7 +13,8 @@ class Ternary(PureExec):
         PureExec.__init__(self, name, [cond, then_p, else_p], then_p.value_type)
 
     def il_exec(self):
-        if isinstance(self.ops[0], BooleanOp) or isinstance(self.ops[0], CompareOp):
+        # Those are already RzILOpBool. Also the constant results of simplified compares.
+        if isinstance(self.ops[0], (BooleanOp, CompareOp, Bool)):
             cond = self.ops[0].il_read()
         else:
             cond = f"NON_ZERO({self.ops[0].il_read()})"
